@@ -425,6 +425,26 @@ Proof.
   repeat split; try reflexivity.
   rewrite (seg_never_stuck parse St). reflexivity.
 Qed.
+
+(* the instance a = []: a connection that is IDLE at hand-over (nothing buffered) - the new process starts from the empty
+   buffer and extracts exactly the frames one process would *)
+Theorem handover_idle b tls :
+  (blen tls < 4294967296)%N ->
+  exists nw, handover (feed parse (@init F) []) tls = Some (nw, tls) /\ buf nw = [] /\
+    out (feed parse (@init F) b) = out (feed parse nw b) /\
+    buf (feed parse (@init F) b) = buf (feed parse nw b) /\
+    dead (feed parse (@init F) b) = dead (feed parse nw b) /\
+    stuck (feed parse nw b) = false.
+Proof.
+  intros Ht.
+  assert (E : feed parse (@init F) [] = @init F) by reflexivity.
+  assert (Hk : handover (@init F) tls = Some (fresh_with [], tls)).
+  { apply (handover_ok (@init F) tls); [cbn; lia|exact Ht]. }
+  pose proof (handover_stream [] b tls) as H. cbv zeta in H. rewrite E in H.
+  destruct H as [nw [H1 H2]]; [reflexivity|cbn; lia|exact Ht|].
+  rewrite Hk in H1. inversion H1; subst nw. cbn [app out init] in H2. destruct H2 as [Ho [Hb [Hd Hs]]].
+  exists (fresh_with []). rewrite E. repeat split; assumption.
+Qed.
 End Handover.
 
 (* ------------------------------------------------------------------ a concrete framer for the non-vacuity examples:
@@ -480,6 +500,10 @@ Proof. reflexivity. Qed.
 Lemma without_room_64_fatal : handed_over_conn_survives false 64 = false /\ handed_over_conn_survives false 4096 = false /\
   handed_over_conn_survives false 63 = true /\ handed_over_conn_survives false 65 = true.
 Proof. vm_compute. repeat split; reflexivity. Qed.
+Lemma served_when_published n : handed_over_conn_served true true n = true.
+Proof. reflexivity. Qed.
+Lemma unpublished_idle_never_served : handed_over_conn_served true false 0 = false /\ handed_over_conn_served true false 1 = true.
+Proof. vm_compute. split; reflexivity. Qed.
 Close Scope N_scope.
 
 (* ------------------------------------------------------------------ a server = a list of listeners: none is skipped *)
